@@ -260,6 +260,8 @@ impl MockIo {
             return if s.fault.k == "werr" { Poll::Ready(Err(io::Error::new(io::ErrorKind::Other, "injected write error"))) } else { Poll::Ready(Ok(0)) };
         }
         if total == 0 { return Poll::Ready(Ok(0)); }
+        // the transport breaks once exactly fault.at bytes were accepted: a call starting before that offset is cut there
+        let total = if (s.fault.k == "werr" || s.fault.k == "wzero") && at < s.fault.at { total.min(s.fault.at - at) } else { total };
         if let Some(rng) = s.random.as_mut() {
             use rand::Rng;
             if rng.gen_bool(0.04) && !s.wpend.contains(&at) {
@@ -759,7 +761,9 @@ pub fn run_replay(prop: &str, seed: u64, input: impl BufRead, mut log: Option<st
                         // keep a bounded number of examples per (scenario, field)
                         let key0 = mm.first().map_or("drift", |m| m.field);
                         let same = res.iter().filter(|x| x.0 == b.c && x.2.first().map_or("drift", |m| m.field) == key0).count();
-                        if same < 3 && res.len() < 2000 { res.push((b.c, b.h.clone(), mm, drift, serde_json::from_str(&inner).unwrap_or(Value::Null))); }
+                        // drift-only results have their own budget so that they cannot crowd out mismatches
+                        let class_len = res.iter().filter(|x| x.2.is_empty() == mm.is_empty()).count();
+                        if same < 3 && class_len < 2000 { res.push((b.c, b.h.clone(), mm, drift, serde_json::from_str(&inner).unwrap_or(Value::Null))); }
                     }
                 }
                 let mut c = counts.lock().unwrap();
